@@ -243,16 +243,19 @@ def toUIntJ : Json → D Nat
   | _ => .error .err
 
 /-- type IDs of composite types accepted by `decodeCompositeTypeID` (`common.DecodeTypeID`, property
-C45): the model covers the shapes `A.<16 hex digits>.<name>(.<name>)*` and `S.<name>.<name>(.<name>)*`
+C45): the model covers the shapes `A.<16 lower-case hex digits>.<name>(.<name>)*` and `S.<name>.<name>(.<name>)*`
 with names of letters, digits and `_`; everything else is outside the model. -/
 def isNameChar (c : Char) : Bool := c.isAlphanum || c == '_'
+/-- a lower-case hexadecimal digit (an address with upper-case digits is accepted by Go and re-rendered in
+lower case by `Type.ID()`: outside the model) -/
+def isLowerHex (c : Char) : Bool := c.isDigit || ('a' ≤ c && c ≤ 'f')
 def isName (cs : List Char) : Bool := !cs.isEmpty && cs.all isNameChar
 def splitDots (cs : List Char) : List (List Char) :=
   cs.foldr (fun c acc => if c == '.' then [] :: acc else match acc with | [] => [[c]] | x :: r => (c :: x) :: r) [[]]
 def typeIDShapeOk (id : String) : Bool :=
   match splitDots id.toList with
   | ['A'] :: addr :: n1 :: n2 :: rest =>
-    addr.length == 16 && addr.all (fun c => (hexVal c).isSome) && isName n1 && isName n2 && rest.all isName
+    addr.length == 16 && addr.all isLowerHex && isName n1 && isName n2 && rest.all isName
   | ['S'] :: n0 :: n1 :: rest => isName n0 && isName n1 && rest.all isName
   | _ => false
 
